@@ -59,7 +59,8 @@ REQUIRED = ["tables_exhaustive", "tables_random", "is_single_root_checked", "has
             "dsu_histories", "dsu_pair_queries", "dsu_invariant_evaluations", "repair_off",
             "repair_somas", "repair_nearest", "repair_table_functions", "repair_three_or_more_roots",
             "step_budget_calls", "frames_with_other_index", "rejected_calls_before_has_cyclic",
-            "tables_regular_families", "checkers_on_int32_arrays"]
+            "tables_regular_families", "checkers_on_int32_arrays",
+            "repair_tables_many_roots", "repair_tables_129_roots_and_more"]
 FLOOR = {"quick": 1200, "thorough": 100000}
 SHARDS = {"quick": 8, "thorough": 16}
 TIMEOUT = {"quick": 300, "thorough": 3000}
@@ -529,8 +530,57 @@ def check_repair(ctx, case):
                                                "the first root's id", case)
 
 
+def check_repair_tables(ctx, case):
+    """The table-level repair functions on forests of many roots (2 .. 300: past any block size)
+    whose ids are arbitrary -- in particular the first root (in row order) does not carry the
+    smallest id.  No file and no re-basing is involved here, so that id layout is unambiguous."""
+    from swcgeom.core import swc_utils as su
+
+    rng = np.random.default_rng(case["seed"])
+    k, mode = int(case["roots"]), case["mode"]
+    rows, tag = [], 0
+    for f in range(k):
+        first = tag
+        for j in range(int(rng.integers(1, 4))):
+            rows.append({"tag": tag, "ptag": None if j == 0 else int(rng.integers(first, tag)),
+                         "frag": f})
+            tag += 1
+    n = len(rows)
+    xyz = (rng.normal(0, 30, (n, 3))).astype(np.float32)
+    fr = {"rows": rows, "xyz": xyz, "type": rng.choice([0, 2, 3, 4, 5], n),
+          "r": np.round(np.exp(rng.normal(0, .5, n)), 4), "order": list(range(n)), "k": k}
+    ids = int(rng.choice([0, 1, 7])) + rng.permutation(n)
+    if ids[0] == ids.min():  # the first root is *not* the lowest-numbered one
+        j = int(np.argmax(ids))
+        ids[0], ids[j] = ids[j], ids[0]
+    raw = pd.DataFrame({
+        "id": ids.astype(np.int64), "type": np.asarray(fr["type"], dtype=np.int64),
+        "x": xyz[:, 0].astype(np.float64), "y": xyz[:, 1].astype(np.float64),
+        "z": xyz[:, 2].astype(np.float64), "r": np.asarray(fr["r"], dtype=np.float64),
+        "pid": np.array([-1 if r_["ptag"] is None else ids[r_["ptag"]] for r_ in rows],
+                        dtype=np.int64),
+        "tag": np.arange(n, dtype=np.float64)})
+    before = raw.copy(deep=True)
+    ctx.count("repair_tables_many_roots")
+    if k >= 129:
+        ctx.count("repair_tables_129_roots_and_more")
+    with warnings.catch_warnings():
+        warnings.simplefilter("ignore")
+        try:
+            out = su.mark_roots_as_somas(raw) if mode == "somas" else su.link_roots_to_nearest(raw)
+        except Exception as e:
+            return ctx.violation("repair-function-raised", f"{mode} on {k} roots: "
+                                                           f"{type(e).__name__}: {str(e)[:160]}", case)
+    if not raw.equals(before):
+        return ctx.violation("repair-input-mutated", f"the copying form for {mode} changed its "
+                                                     f"input table", case)
+    _check_repaired(ctx, case, fr, out, mode, f"table function for {mode} on {k} roots")
+
+
 def execute(ctx, case):
     k = case["kind"]
+    if k == "repair_tables":
+        return check_repair_tables(ctx, case)
     if k == "table":
         check_table(ctx, case)
     elif k == "dsu":
@@ -633,6 +683,14 @@ def run(ctx):
         ctx.case(case, klass="dsu/" + case["mode"])
         execute(ctx, case)
     ctx.count("dsu_invariant_evaluations", _DsuInv.evals)
+    root_counts = [2, 3, 5, 8, 16, 17, 64, 127, 128, 129, 130, 255, 256, 257, 300]
+    for j, kroots in enumerate(root_counts):
+        if j % ctx.nshards != ctx.shard:
+            continue
+        for mode in ("somas", "nearest"):
+            case = {"kind": "repair_tables", "seed": 900 + j, "roots": kroots, "mode": mode}
+            ctx.case(case, klass=f"repair-tables/{mode}")
+            execute(ctx, case)
     for _ in range(ctx.scale(900, 24000)):
         case = {"kind": "repair", "seed": int(rng.integers(0, 2**31 - 1)),
                 "mode": [False, "somas", "nearest"][int(rng.integers(0, 3))]}
